@@ -42,6 +42,7 @@ type Prog struct {
 	ipathCache  map[*ssa.Function][]ipath
 	keepOpaque  map[*ssa.Function]bool
 	havoc       bool
+	pureMemo    map[*ssa.Function]int
 	exitCache   map[*ssa.Function]relSet
 	srcFuncs    []*ssa.Function // all functions (incl. anonymous) with source in repo packages
 	recognisers map[*ssa.Function]bool
